@@ -23,12 +23,16 @@ HEADER = ("Format: https://www.debian.org/doc/packaging-manuals/copyright-format
           "Upstream-Contact: Jane Doe <jane@example.com>\nSource: https://example.com/proj\n")
 
 
-def dep5_text(paragraphs: list) -> str:
-    out = [HEADER]
+def dep5_text(paragraphs: list, header_fields: bool = False) -> str:
+    # (the header paragraph may carry Copyright and License fields of its own: they attribute nothing to any file)
+    out = [HEADER + ("Copyright: 1999 Package As A Whole\nLicense: Apache-2.0\n" if header_fields else "")]
     for pg in paragraphs:
         out.append("\nFiles: " + " ".join(pg["patterns"]) + "\n")
         cop = pg["cop"]
-        out.append("Copyright: " + cop[0] + "\n" + "".join("           " + c + "\n" for c in cop[1:]))
+        if pg.get("layout") == "nextline":       # the usual Debian layout: the holders on continuation lines
+            out.append("Copyright:\n" + "".join(" " + c + "\n" for c in cop))
+        else:
+            out.append("Copyright: " + cop[0] + "\n" + "".join("           " + c + "\n" for c in cop[1:]))
         # (every other paragraph carries the text of its licence below the expression, as the format allows)
         body = "\n Permission is hereby granted to whoever reads this.\n .\n Second paragraph of the text." if len(out) % 2 else ""
         out.append("License: " + pg["lic"] + body + "\n")
@@ -117,7 +121,7 @@ def run_project(case: dict) -> dict:
             (root / "LICENSES" / f"{lic}.txt").write_text("text\n")
         if case["has_dep5"]:
             (root / ".reuse").mkdir()
-            (root / ".reuse" / "dep5").write_text(dep5_text(case["paragraphs"]))
+            (root / ".reuse" / "dep5").write_text(dep5_text(case["paragraphs"], bool(case.get("header_fields"))))
         if case["fault"] == "toml-is-dir":
             (root / "REUSE.toml").mkdir()
         base = ["--root", str(root), "--no-multiprocessing"]
@@ -214,13 +218,13 @@ def run(ctx: core.Ctx) -> int:
             pgs.append({"patterns": rnd.sample(pool, rnd.randint(1, 2)),
                         "cop": [f"20{10 + k} Holder {chr(65 + k)}"] + (["2019 Second Line <s@example.org>"] if rnd.random() < 0.3 else []),
                         "lic": rnd.choice(["MIT", "0BSD", "Apache-2.0", "MIT OR 0BSD"]),
-                        "comment": "a comment" if rnd.random() < 0.3 else None})
+                        "comment": "a comment" if rnd.random() < 0.3 else None, "layout": "nextline" if (j + k) % 5 == 2 else "inline"})
         if j % 10 == 7:      # a later paragraph repeats an earlier, non-adjacent one
             pgs = [pgs[0], {"patterns": ["src/*", "tools/gen*.py"], "cop": ["2015 Bob"], "lic": "0BSD"},
                    {"patterns": ["src/sub/*", "tools/genx.py"], "cop": pgs[0]["cop"], "lic": pgs[0]["lic"], "comment": pgs[0].get("comment")}]
         pcases.append({"tid": len(pcases) + 1, "paragraphs": pgs, "has_dep5": True, "fault": "none", "seed": ctx.seed + j,
-                       "cwd": "src" if j % 4 == 0 else None,
-                       "label": json.dumps({"paragraphs": [[pg["patterns"], pg["lic"]] for pg in pgs]})})
+                       "cwd": "src" if j % 4 == 0 else None, "header_fields": j % 6 == 1,
+                       "label": json.dumps({"paragraphs": [[pg["patterns"], pg["lic"], pg.get("layout", "inline")] for pg in pgs], "header_fields": j % 6 == 1})})
     # holders with non-ASCII letters, converted in an interpreter whose locale is not UTF-8
     for j in range(6 if q else 60):
         pgs = [{"patterns": rnd.sample(CLEAN_POOL, 1), "cop": ["2020 Jos\u00e9 M\u00fcller", "2021 \u5c71\u7530 \u592a\u90ce"][: 1 + j % 2],
